@@ -196,9 +196,22 @@ def observed_names(out, mode, t):
 
 
 def run_mode(a):
-    cli, types, mode = a
+    cli, types, mode = a[:3]
+    source = a[3] if len(a) > 3 else "flags"
     files = project_files(types)
-    g = proj.generate(cli, files, mode=mode, tag="c06")
+    if source == "flags":
+        g = proj.generate(cli, files, mode=mode, tag="c06")
+    elif source == "config-file":
+        # a stand-alone configuration file that sets nothing but the paths and the library: every other setting takes its default
+        g = proj.generate(cli, files, mode=mode, tag="c06", config={"verbose": False})
+    else:
+        # the same through the plugins.typegen section of a tauri.conf.json discovered from the working directory
+        import os
+        root = common.scratch("c06t")
+        common.write_tree(os.path.join(root, "src"), files)
+        proj.write_tauri_conf(root, "./src", "./out", mode, {})
+        r = common.run([cli, "tauri-typegen", "generate"], cwd=root)
+        g = proj.Gen(r, root, os.path.join(root, "out"))
     try:
         if g.run.timed_out:
             return {"inconclusive": "watchdog"}
@@ -252,8 +265,10 @@ def run(tier):
             # per-item truth: struct values are the item indices; enum strings are in item order
             peritem[nm] = {vv: kk for kk, vv in val.items()} if isinstance(val, dict) else dict(enumerate(val))
         programs += 1
-        res = common.pmap(run_mode, [(cli, types, "none"), (cli, types, "zod")], workers=2)
-        for mode, r in zip(("none", "zod"), res):
+        variants = [(m, src) for m in ("none", "zod") for src in ("flags", "config-file", "tauri.conf.json")]
+        res = common.pmap(run_mode, [(cli, types, m, src) for (m, src) in variants], workers=6)
+        for (mode, source), r in zip(variants, res):
+            stag = "" if source == "flags" else " settings-from=" + source
             if "inconclusive" in r:
                 v.inconclusive.append("watchdog")
                 continue
@@ -267,14 +282,14 @@ def run(tier):
                     v.count("generator_duplicate_wire_names_skipped")
                     continue
                 idents = [i[0] for i in t["items"]]
-                key = (t["kind"], t["rename_all"], tuple((i[0], i[1], tuple(i[2])) for i in t["items"]), mode)
+                key = (t["kind"], t["rename_all"], tuple((i[0], i[1], tuple(i[2])) for i in t["items"]), mode, source)
                 v.case(key, nontrivial=True)
                 disagreements_checked += 1
                 if len(v.samples) < 6:
                     v.samples.append({"type": t["name"], "kind": t["kind"], "rename_all": t["rename_all"], "mode": mode,
                                       "items": [[i[0], i[1]] + i[2] for i in t["items"][:5]], "serde_names": want[:5]})
                 if got is None:
-                    v.violation("C06 %s %s declaration-missing-or-unparsable" % (t["kind"], mode),
+                    v.violation("C06 %s %s declaration-missing-or-unparsable%s" % (t["kind"], mode, stag),
                                 "%s %s (rename_all=%s): no usable declaration in types.ts" % (t["kind"], t["name"], t["rename_all"]),
                                 proj.witness_of(project_files([t]), mode))
                     continue
@@ -286,7 +301,7 @@ def run(tier):
                 blame = diff_items(t, want, got, peritem[t["name"]])
                 for (ident, label, detail) in blame:
                     cls = item_class(t, ident, label)
-                    sig = "C06 %s rename_all=%s attr=%s ident=%s" % (t["kind"] == "struct" and "field" or "variant", t["rename_all"], label, cls)
+                    sig = "C06 %s rename_all=%s attr=%s ident=%s%s" % (t["kind"] == "struct" and "field" or "variant", t["rename_all"], label, cls, stag)
                     v.violation(sig, "%s %s (rename_all=%s), item `%s` [%s]: %s; serde names %s, emitted %s (%s mode)" % (
                         t["kind"], t["name"], t["rename_all"], ident, label, detail, want, got, mode),
                         proj.witness_of(project_files([t]), mode, extra={"oracle_names": want}))
